@@ -293,7 +293,7 @@ PROFILES = {
 
 
 def gen_spec(rng: random.Random, profile='plain', n_min=3, n_max=8, fail_p=0.15, modes=('coro',),
-             retry_p=0.3, falsy_p=0.15):
+             retry_p=0.3, falsy_p=0.15, cb_p=0.0):
     """generate a declaration-level spec. Nodes are created in dependency order; the last node is the
     output; nodes the output cannot reach are dropped (build_dag never sees them)."""
     P = PROFILES[profile]
@@ -412,7 +412,19 @@ def gen_spec(rng: random.Random, profile='plain', n_min=3, n_max=8, fail_p=0.15,
         if nd['body']['kind'] == 'prov' and rng.random() < falsy_p:
             nd['body'] = {'kind': 'const', 'v': rng.choice([None, 0, ''])}
     spec = {'nodes': nodes, 'input': 0, 'output': n - 1, 'input_kwargs': {'x': rng.choice(['v', 'w', ''])}}
-    return prune(spec)
+    spec = prune(spec)
+    if cb_p and rng.random() < cb_p:
+        # suspending collaborators: how many bare yields each callback makes (per node index of the built graph;
+        # synthetic nodes never get callbacks)
+        cb = {'nstart': {}, 'ncomplete': {}, 'save': {}}
+        for i in range(len(spec['nodes'])):
+            for kind in cb:
+                if rng.random() < 0.35:
+                    cb[kind][str(i)] = rng.choice([1, 1, 2])
+        cb['pstart'] = rng.choice([0, 0, 1])
+        cb['pcomplete'] = rng.choice([0, 0, 1])
+        spec['cb'] = cb
+    return spec
 
 
 def is_synthetic_free(nodes, a):
@@ -481,8 +493,11 @@ def prune(spec):
             nd['recur_k'] = 0
         if i not in starts:
             nd['has_additional'] = False
-    return {'nodes': out, 'input': ren[spec['input']], 'output': ren[spec['output']],
-            'input_kwargs': spec['input_kwargs']}
+    res = {'nodes': out, 'input': ren[spec['input']], 'output': ren[spec['output']],
+           'input_kwargs': spec['input_kwargs']}
+    if 'cb' in spec:
+        res['cb'] = spec['cb']
+    return res
 
 
 def shape_class(spec) -> str:
